@@ -9,6 +9,7 @@ def blist(b):
 def emit(w, src, must):
     emit_codes(w, src, must)
     emit_timers(w, src, must)
+    emit_guards(w, src, must)
 
 
 def emit_timers(w, src, must):
@@ -36,4 +37,21 @@ def emit_codes(w, src, must):
     w("(* status code -> default reason phrase (codes! in sip-types/src/code.rs) *)")
     w("Definition code_reasons : list (N * list byte) :=")
     w("  [" + ";\n   ".join("(%s, %s)" % (c, blist(t.encode())) for (c, _, t) in rows) + "].")
+    w("")
+
+
+def emit_guards(w, src, must):
+    """which form two guards of the receive path have in the source (C02): booleans, not `must`,
+    so that the unguarded form yields a model whose totality theorem fails instead of a translator error"""
+    t = src("crates/sip-core/src/transport/parse.rs")
+    body = t[t.index("fn parse_complete_sip"):]
+    checked = bool(re.search(r"head_end\s*\.checked_add\(len\.0\)", body)) and not re.search(r"head_end \+ len\.0", body)
+    w("(* parse_complete_sip computes the announced body end with checked_add (sip-core/src/transport/parse.rs) *)")
+    w("Definition dg_body_end_checked : bool := %s." % ("true" if checked else "false"))
+    l = src("crates/sip-core/src/lib.rs")
+    ext = l[l.index("fn extract_from"):]
+    ext = ext[:ext.index("\n    }\n") + 1]
+    req = bool(re.search(r"if via\.is_empty\(\)\s*\{\s*return Err", ext))
+    w("(* BaseHeaders::extract_from rejects a message without a usable Via before do_receive indexes via[0] (sip-core/src/lib.rs) *)")
+    w("Definition base_requires_via : bool := %s." % ("true" if req else "false"))
     w("")
